@@ -12,5 +12,6 @@ func TestReplay(t *testing.T) {
 	kit.Replay(t, map[string]kit.Replayer{
 		"literal": func(raw gojson.RawMessage) *kit.Failure { return replayLiteral(raw) },
 		"history": func(raw gojson.RawMessage) *kit.Failure { return replayHistory(raw) },
+		"server":  func(raw gojson.RawMessage) *kit.Failure { return replayServer(raw) },
 	})
 }
